@@ -75,7 +75,7 @@ Section Proofs.
 
   Lemma step_sorted s o : sorted s -> sorted (fst (step s o)).
   Proof.
-    intros Hs. destruct o as [n b | | | k | k n b]; cbn [Model.step].
+    intros Hs. destruct o as [n b | | | k | k n b | ]; cbn [Model.step].
     - destruct (should_rotate rl s); cbn [fst]; [|exact Hs].
       destruct (rotate_sorted s Hs) as [b0 H]. exists b0. exact H.
     - apply rotate_sorted, Hs.
@@ -84,6 +84,7 @@ Section Proofs.
     - destruct (should_rotate rl s); cbn [fst]; [|exact Hs].
       destruct (Nat.leb k (length (rot s))); cbn [fst]; [apply crash_rotate_sorted, Hs|].
       destruct (rotate_sorted s Hs) as [b0 H]. exists b0. exact H.
+    - exact Hs.
   Qed.
 
   (** ---- the loop only ever drops a prefix (the oldest files) of the list, and never reorders ---- *)
@@ -136,10 +137,10 @@ Section Proofs.
   Lemma append_disk n b s : disk (append n b s) = disk s ++ b.
   Proof. unfold disk, append. cbn. rewrite app_assoc. reflexivity. Qed.
 
-  Lemma step_disk s o : sorted s ->
+  Lemma step_disk s o : internal o -> sorted s ->
     exists d, disk s ++ wrote (snd (step s o)) = d ++ disk (fst (step s o)).
   Proof.
-    intros Hs. destruct o as [n b | | | k | k n b]; cbn [Model.step].
+    intros Hi Hs. destruct o as [n b | | | k | k n b | ]; cbn [Model.step].
     - destruct (should_rotate rl s); cbn [fst snd wrote].
       + destruct (rotate_disk s Hs) as [d Hd]. exists d. rewrite append_disk, Hd, app_assoc. reflexivity.
       + exists []. rewrite append_disk. reflexivity.
@@ -151,6 +152,7 @@ Section Proofs.
         * destruct (crash_rotate_disk k s Hs) as [d Hd]. exists d. rewrite app_nil_r. exact Hd.
         * destruct (rotate_disk s Hs) as [d Hd]. exists d. rewrite append_disk, Hd, app_assoc. reflexivity.
       + exists []. rewrite append_disk. reflexivity.
+    - destruct Hi.
   Qed.
 
   Lemma run_cons s o r :
@@ -164,14 +166,15 @@ Section Proofs.
     induction ops as [|o r IH]; intros s Hs; [exact Hs|]. rewrite run_cons. cbn [fst]. apply IH, step_sorted, Hs.
   Qed.
 
-  Lemma run_suffix ops : forall s, sorted s ->
+  Lemma run_suffix ops : forall s, Forall internal ops -> sorted s ->
     exists dropped, disk s ++ all_written (snd (run s ops)) = dropped ++ disk (fst (run s ops)).
   Proof.
-    induction ops as [|o r IH]; intros s Hs.
+    induction ops as [|o r IH]; intros s Hi Hs.
     - exists []. cbn. rewrite app_nil_r. reflexivity.
-    - rewrite run_cons. cbn [fst snd]. unfold all_written in *. cbn [map concat].
-      destruct (step_disk s o Hs) as [d Hd].
-      destruct (IH _ (step_sorted s o Hs)) as [d' Hd'].
+    - inversion Hi as [|? ? Ho Hr]; subst.
+      rewrite run_cons. cbn [fst snd]. unfold all_written in *. cbn [map concat].
+      destruct (step_disk s o Ho Hs) as [d Hd].
+      destruct (IH _ Hr (step_sorted s o Hs)) as [d' Hd'].
       exists (d ++ d'). rewrite app_assoc, Hd, <- !app_assoc, Hd'. reflexivity.
   Qed.
 
@@ -180,7 +183,7 @@ Section Proofs.
 
   Lemma step_size_ok s o : writes_ok o -> size_ok s -> size_ok (fst (step s o)).
   Proof.
-    unfold size_ok. intros Ho Hs. destruct o as [n b | | | k | k n b]; cbn [Model.step] in *.
+    unfold size_ok. intros Ho Hs. destruct o as [n b | | | k | k n b | ]; cbn [Model.step] in *.
     - destruct (should_rotate rl s); cbn; rewrite ?app_length; cbn in Ho; lia.
     - cbn. lia.
     - cbn. lia.
@@ -190,6 +193,7 @@ Section Proofs.
         * unfold Model.crash_rotate. rewrite E. cbn. lia.
         * cbn. rewrite ?app_length. cbn in Ho. lia.
       + cbn. rewrite ?app_length. cbn in Ho. lia.
+    - cbn. lia.
   Qed.
 
   Definition auto_ok (e : ev) : Prop :=
@@ -203,13 +207,14 @@ Section Proofs.
 
   Lemma step_auto_ok s o : size_ok s -> auto_ok (snd (step s o)).
   Proof.
-    unfold size_ok, auto_ok. intros Hs. destruct o as [n b | | | k | k n b]; cbn [Model.step].
+    unfold size_ok, auto_ok. intros Hs. destruct o as [n b | | | k | k n b | ]; cbn [Model.step].
     - destruct (should_rotate rl s) eqn:E; cbn; [|exact I]. apply should_rotate_true in E. lia.
     - cbn. exact I.
     - cbn. exact I.
     - cbn. destruct (Nat.leb k (length (rot s))); exact I.
     - destruct (should_rotate rl s) eqn:E; cbn [snd]; [|exact I].
       destruct (Nat.leb k (length (rot s))); cbn; [exact I|]. apply should_rotate_true in E. lia.
+    - cbn. exact I.
   Qed.
 
   Lemma run_auto_ok ops : forall s, Forall writes_ok ops -> size_ok s -> Forall auto_ok (snd (run s ops)).
@@ -238,9 +243,9 @@ Proof.
   - exact (rotate_none_disk s).
 Qed.
 
-Lemma step_none_disk rl s o : disk (fst (step rl None s o)) = disk s ++ wrote (snd (step rl None s o)).
+Lemma step_none_disk rl s o : internal o -> disk (fst (step rl None s o)) = disk s ++ wrote (snd (step rl None s o)).
 Proof.
-  destruct o as [n b | | | k | k n b]; cbn [step].
+  intros Hi. destruct o as [n b | | | k | k n b | ]; cbn [step].
   - destruct (should_rotate rl s); cbn [fst snd wrote]; rewrite append_disk, ?rotate_none_disk; reflexivity.
   - cbn [fst snd wrote]. rewrite rotate_none_disk, app_nil_r. reflexivity.
   - cbn. rewrite app_nil_r. reflexivity.
@@ -250,15 +255,16 @@ Proof.
       * rewrite crash_none_disk, app_nil_r. reflexivity.
       * rewrite append_disk, rotate_none_disk. reflexivity.
     + rewrite append_disk. reflexivity.
+  - destruct Hi.
 Qed.
 
-Lemma run_none_disk rl ops : forall s,
+Lemma run_none_disk rl ops : forall s, Forall internal ops ->
   disk (fst (run rl None s ops)) = disk s ++ all_written (snd (run rl None s ops)).
 Proof.
-  induction ops as [|o r IH]; intros s.
+  induction ops as [|o r IH]; intros s Hi.
   - cbn. rewrite app_nil_r. reflexivity.
-  - rewrite run_cons. cbn [fst snd]. unfold all_written in *. cbn [map concat].
-    rewrite IH, step_none_disk, <- app_assoc. reflexivity.
+  - inversion Hi as [|? ? Ho Hr]; subst. rewrite run_cons. cbn [fst snd]. unfold all_written in *. cbn [map concat].
+    rewrite IH by exact Hr. rewrite step_none_disk by exact Ho. rewrite <- app_assoc. reflexivity.
 Qed.
 
 (** ---- retention: with maxRotatedFiles = N >= 1 and contiguous numbering, a rotation keeps exactly the
@@ -337,9 +343,10 @@ Lemma step_idx rl N s o m : 1 <= N -> crash_free o -> map fst (rot s) = down m -
   map fst (rot (fst (step rl (Some N) s o))) =
   down (if is_rotation (snd (step rl (Some N) s o)) then Nat.min (S m) N else m).
 Proof.
-  intros HN Hc H. destruct o as [n b | | | k | k n b]; cbn [step]; try contradiction.
+  intros HN Hc H. destruct o as [n b | | | k | k n b | ]; cbn [step]; try contradiction.
   - destruct (should_rotate rl s); cbn [fst snd is_rotation rotated append rot]; [apply rotate_idx; assumption | exact H].
   - cbn [fst snd is_rotation rotated]. apply rotate_idx; assumption.
+  - cbn. exact H.
   - cbn. exact H.
 Qed.
 
